@@ -192,12 +192,26 @@ func (w *worker) do(i int, name string, stopLike bool, f func() string) (res str
 	defer func() {
 		if p := recover(); p != nil {
 			mark := raceLogSize() // first thing: after a panic out of a sync primitive the race detector's output is unreliable
-			res = "panic: " + firstLine(fmt.Sprint(p))
-			if strings.HasPrefix(res, "panic: sync:") {
-				w.syncPanicMark.CompareAndSwap(-1, mark)
+			var msg string
+			switch x := p.(type) {
+			case string:
+				msg = x
+			case error:
+				msg = x.Error()
+			default:
+				msg = fmt.Sprint(p)
 			}
+			if strings.HasPrefix(msg, "sync:") {
+				for { // keep the smallest mark: several goroutines can be in this handler at once
+					cur := w.syncPanicMark.Load()
+					if cur != -1 && cur <= mark || w.syncPanicMark.CompareAndSwap(cur, mark) {
+						break
+					}
+				}
+			}
+			res = "panic: " + firstLine(msg)
 			st := string(debug.Stack())
-			w.lastPanic[i] = &PanicInfo{Thread: i, Op: name, Msg: firstLine(fmt.Sprint(p)), Stack: clip(st, 6000)}
+			w.lastPanic[i] = &PanicInfo{Thread: i, Op: name, Msg: firstLine(msg), Stack: clip(st, 6000)}
 			if fr := libFramesOfStacks(st); len(fr) > 0 {
 				w.lastPanic[i].Frame = fr[0]
 			}
